@@ -15,6 +15,12 @@ Theorem C13_from_to_onnx :
 Proof. exact from_to_onnx. Qed.
 Print Assumptions C13_from_to_onnx.
 
+(* ... and in the other direction a TypeProto is reproduced up to normalisation (an empty dim_param is no value). *)
+Theorem C13_to_from_onnx :
+  forall p t, pfits p = true -> from_onnx p = Some t -> to_onnx t = Some (norm_proto p).
+Proof. exact to_from_onnx. Qed.
+Print Assumptions C13_to_from_onnx.
+
 (* ... hence to_onnx is injective: distinct types never share an ONNX form. *)
 Theorem C13_to_onnx_injective :
   forall a b p, canon_ty a = true -> canon_ty b = true -> to_onnx a = Some p -> to_onnx b = Some p -> a = b.
@@ -106,6 +112,12 @@ Theorem C13_subtype_not_transitive :
                 subtype a b = true /\ subtype b c = true /\ subtype a c = false.
 Proof. exact subtype_not_transitive. Qed.
 Print Assumptions C13_subtype_not_transitive.
+
+(* dimension labels never matter for compatibility (spox.inline strips them from the model's types before the check) *)
+Theorem C13_subtype_ignores_labels :
+  forall a b, subtype a (strip_ty b) = subtype a b /\ subtype (strip_ty a) b = subtype a b.
+Proof. exact subtype_strip. Qed.
+Print Assumptions C13_subtype_ignores_labels.
 
 (* outside the domain the exactness statement is false of the code: witnesses *)
 Theorem C13_subtype_exact_top_left_refuted :
